@@ -119,3 +119,12 @@ package freelist
 //@   requires page != nil
 //@   ensures page.flags == common.FreelistPageFlag && page.id == old(page.id) && page.overflow == old(page.overflow)
 //@   modifies page.flags, page.count, allelems("common.Pgid")
+
+//@ ghost var lastread int        -- page argument of the most recent Read
+
+//@ func Interface.Read
+//@   ensures lastread == page
+//@   modifies lastread, gfree, all("array.ids"), allelems("common.Pgid"), all("shared.cache"), allmaps("common.Pgid", "struct{}"), all("hashMap.freePagesCount"), all("hashMap.freemaps"), all("hashMap.forwardMap"), all("hashMap.backwardMap"), allmaps("uint64", "freelist.pidSet"), allmaps("common.Pgid", "uint64")
+
+//@ func Interface.Init
+//@   modifies gfree, all("array.ids"), allelems("common.Pgid"), all("shared.cache"), allmaps("common.Pgid", "struct{}"), all("hashMap.freePagesCount"), all("hashMap.freemaps"), all("hashMap.forwardMap"), all("hashMap.backwardMap"), allmaps("uint64", "freelist.pidSet"), allmaps("common.Pgid", "uint64")
